@@ -51,6 +51,11 @@ impl ToPy for StringName {
                 imp.add_from_import("typing", TUPLE);
                 core_type(TUPLE, &self.generics, imp)
             }
+            clss::COLLECTION => {
+                // the lower-case name of the built-in stub is not a Python name
+                imp.add_from_import("typing", "Collection");
+                core_type("Collection", &self.generics, imp)
+            }
             clss::CALLABLE => {
                 imp.add_from_import("typing", CALLABLE);
                 let args = self.generics.first().cloned().unwrap_or_else(Name::empty);
